@@ -885,10 +885,12 @@ impl Emit<'_> {
                 self.out.push('{');
                 for i in idx {
                     let e = &es[i];
-                    if let (true, "unicode", Node::Arr(xs)) = (self.unicode_own_line && self.mode != 1, e.key.text.as_str(), &e.val) {
+                    if let (true, "unicode", Node::Arr(xs)) = (self.unicode_own_line, e.key.text.as_str(), &e.val) {
                         if xs.iter().all(|(x, _)| matches!(x, Node::Word(w) if !w.quoted)) {
                             let items: Vec<&str> = xs.iter().map(|(x, _)| if let Node::Word(w) = x { w.text.as_str() } else { "" }).collect();
-                            self.out.push_str(&format!("\nunicode = ({});\n", items.join(",")));
+                            let indent = if self.mode == 0 { "" } else { *self.rng.pick(&["", "  ", "\t"]) };
+                            let eq = if self.mode == 0 { "=" } else { *self.rng.pick(&[" = ", "=", "  =  "]) };
+                            self.out.push_str(&format!("\n{indent}unicode{eq}({});\n", items.join(",")));
                             continue;
                         }
                     }
@@ -1101,7 +1103,8 @@ fn lib_build_path(p: &Path) -> Built {
 fn cli_build(p: &Path, tmp: &Path, tag: &str) -> Built {
     let out = tmp.join(format!("{tag}.ttf"));
     let bd = tmp.join(format!("build-{tag}"));
-    let exe = std::env::current_exe().map_err(|e| e.to_string())?;
+    // /proc/self/exe: still this very binary even if the file was replaced by a concurrent `cargo build`
+    let exe = if Path::new("/proc/self/exe").exists() { PathBuf::from("/proc/self/exe") } else { std::env::current_exe().map_err(|e| e.to_string())? };
     let o = std::process::Command::new(exe)
         .arg("c20child")
         .arg(p)
